@@ -24,8 +24,8 @@ var recordKinds = map[string][]string{
 		"Worker.WithLock", "Operation.WithLock", "Producer.WithLock", "Processor.WithLock", "Handler.WithLock",
 		"Future.WithLock", "Mixed.WithLock"},
 	"launch": {"Operation.Signal", "Operation.Launch", "Operation.Add", "Operation.StartGroup", "Worker.Signal",
-		"Worker.Launch", "Worker.Background", "Worker.StartGroup", "Producer.Background", "Processor.Background",
-		"Processor.Add"},
+		"Worker.Launch", "Worker.Background", "Worker.StartGroup", "Worker.Group", "Producer.Background",
+		"Processor.Background", "Processor.Add"},
 }
 
 // fromOf maps an observation back to the execution whose result it is (0: not identifiable,
@@ -55,7 +55,7 @@ func record(n int, seed int64) {
 		fam := fams[rng.Intn(len(fams))]
 		kinds := recordKinds[fam]
 		sc := scenario{Fam: fam, Kind: kinds[rng.Intn(len(kinds))], N: 1 + rng.Intn(3), M: 1}
-		if strings.HasSuffix(sc.Kind, "StartGroup") {
+		if strings.HasSuffix(sc.Kind, "Group") {
 			sc.M = 1 + rng.Intn(3)
 		}
 		for j := 0; j < 4; j++ {
